@@ -4,6 +4,7 @@ import (
 	"bytes"
 	"fmt"
 	"unicode"
+	"unicode/utf8"
 
 	"github.com/cloudspannerecosystem/memefish/char"
 )
@@ -74,7 +75,16 @@ func QuoteSQLIdent(s string) string {
 }
 
 func quoteSQLStringContent(s string, quote rune, buf *bytes.Buffer) {
-	for _, r := range s {
+	for i := 0; i < len(s); {
+		r, size := utf8.DecodeRuneInString(s[i:])
+		if r == utf8.RuneError && size == 1 {
+			// Not valid UTF-8: keep the byte itself instead of replacing it by U+FFFD.
+			fmt.Fprintf(buf, `\x%02x`, s[i])
+			i++
+			continue
+		}
+		i += size
+
 		q := quoteSingleEscape(r, quote /* isString */, true)
 		if q != "" {
 			buf.WriteString(q)
